@@ -269,7 +269,7 @@ OCT [0-7]
 [ \t\n]+ // Skip whitespace.
 
 (#|[/][/])[^\n]* // Skip # or // comment.
-[/][*]([^*]|[*][^/])*[*][/] // Skip /**/ comment.
+[/][*]([^*]|[*]+[^*/])*[*]+[/] // Skip /**/ comment.
 
 [?!]?[$%&.-/:<=>@^_~\\]+ {
     return pass_string (yyscanner, yylval, TOK_OP);
